@@ -1,5 +1,8 @@
 """C09 — VCF round trip; lazy = eager: escaping sets, encode/decode pairing, shared span (DESIGN.md §5 C09)."""
+import re
+
 from .. import a10
+from .. import a5
 from .. import a7
 from .. import rules as R
 
@@ -11,7 +14,8 @@ EXPLANATION = (
     "helper cover the eager parser, the lazy accessor and the array-value iterators for INFO and for samples, and the "
     "writers of both columns call their encoder; (R3) the lone '.' escape is present in both string writers; (R4) the "
     "variant span has one provided implementation that neither record type overrides."
-    " (R5) reused destination: every entry->Ok path of the eager VCF parser overwrites or clears each RecordBuf column (samples are reset element-wise and are tabled as not decided); (R6) append-buffer discipline for all VCF line readers.")
+    " (R5) reused destination: every entry->Ok path of the eager VCF parser overwrites or clears each RecordBuf column (samples are reset element-wise and are tabled as not decided); (R6) append-buffer discipline for all VCF line readers."
+    " (R7) UTF-8 validation per fill_buf window in the lazy record reader carries an incomplete trailing character over to the next window.")
 ASSUMPTIONS = ["percent-encoding crate encodes exactly the bytes in the AsciiSet (plus non-ASCII) and decodes %XX",
                "reader delimiter constants are the named DELIMITER/SEPARATOR consts of the reader modules (floor-checked)"]
 NOT_DECIDED = ["value equality over the VCF grammar (numbers, floats, genotype strings, header records)",
@@ -132,6 +136,24 @@ def run(ctx):
 
     ctx.rule("C09.R6", "A10 append-buffer discipline: VCF readers reset their line buffer before every appended line")
     a10.discipline_rule(ctx, "C09.R6", r"^<?noodles_vcf::", 8)
+
+    ctx.rule("C09.R7", "A5d unit decoder per window: UTF-8 validation of the bytes of one fill_buf window inside a scanning loop must not make its "
+                      "error final — a character may straddle two windows (zero or more sites; each must carry the incomplete tail over)")
+    n8 = 0
+    for s8 in a5.window_decoder_sites(fb):
+        if not re.search(r"noodles_vcf::", s8["fn"]):
+            continue
+        n8 += 1
+        f8 = fb.fns[s8["fn"]]
+        ctx.saw_fn(f8)
+        if s8["ok"]:
+            ctx.ok("C09.R7", s8["fn"] + " :: incomplete trailing character is carried over", "Err edge of from_utf8(window) reaches a success exit", f8.loc(s8["block"]))
+        else:
+            ctx.violation("C09.R7", "C09.R7/utf8-per-window/" + f8.root,
+                          "%s validates UTF-8 on the bytes of a single fill_buf window and treats the error as final: a multi-byte character "
+                          "that straddles a buffer refill boundary makes a valid line fail, depending only on how the stream chunks its reads" % f8.root,
+                          f8.loc(s8["block"]))
+    ctx.count("utf8_per_window_sites", n8)
 
     ctx.rule("C09.R4", "impl table: variant_end / variant_span are single provided implementations (lazy and eager share them)")
     tr = fb.traits.get(V + "variant::record::Record")
